@@ -10,6 +10,10 @@ ops of property C16:
     tape  = the tape the REAL parser produced for <hex> (show.rs `text_tape`)
     hex   = the input bytes (replay only; the model converts the tape)
   → hex of the output with every float token replaced by `f<bits>` | na | panic | hang
+  jsonw <opts> <enc> <entry> <cap> <tape> <hex>
+    `to_writer` into a writer that accepts <cap> bytes and then fails: `ok` if the whole output fits,
+    else `err:<hex of the first cap bytes>` (what reached the writer); `skip` when the output contains a
+    float (its text is not modelled); `na` as for `json`
   wf <tape> <hex>
     the runtime-checked hypothesis of C16_total / C16_content: `wf` iff `wfTapeB tape` (the tape is
     the token list of a document tree) AND (a spot check of the proved C16_content) the model's
@@ -89,7 +93,36 @@ def wfAnswer (t : Tape) : String :=
         | _ => false
       if ok then "wf" else "mismatch"
 
+mutual
+def hasFloat : JVal → Bool
+  | .float _ => true
+  | .arr xs => hasFloatL xs
+  | .obj kvs => hasFloatO kvs
+  | _ => false
+def hasFloatL : List JVal → Bool
+  | [] => false
+  | x :: xs => hasFloat x || hasFloatL xs
+def hasFloatO : List (Bytes × JVal) → Bool
+  | [] => false
+  | (_, v) :: r => hasFloat v || hasFloatO r
+end
+
 def handle : Handler
+  | ["jsonw", so, se, sy, sc, st, _hex] => do
+    let o ← parseOpts so
+    let enc ← parseEnc se
+    let entry ← parseEntry sy
+    let cap ← sc.toNat?
+    let t ← parseTape st
+    pure (match toJson o enc entry t with
+      | .error .panic => "panic"
+      | .error .hang => "hang"
+      | .ok none => "na"
+      | .ok (some v) =>
+        if hasFloat v then "skip"
+        else
+          let bytes := render floatTok o v
+          if cap < bytes.length then "err:" ++ toHex (bytes.take cap) else "ok")
   | ["wf", st, _hex] => (parseTape st).map wfAnswer
   | ["json", so, se, sy, st, _hex] => do
     let o ← parseOpts so
